@@ -49,20 +49,20 @@ Proof.
 Qed.
 
 (* Whatever the request path, the file system layout and the handler extensions: every path the server
-   stats, lists or opens is inside the data directory.  (The data directory exists and its own name
-   does not end with "catalog.xml".) *)
+   stats, lists or opens is inside the data directory.  (The data directory exists - whatever its own name is,
+   "catalog.xml" included.) *)
 Theorem confined exts fs root path_info :
-  isdir fs root = true -> chars_eqb (last root []) catalog_xml = false ->
+  isdir fs root = true ->
   Forall (inside root) (snd (route exts fs root path_info)).
 Proof.
-  intros Hroot Hname. unfold route. set (p := resolve root path_info).
+  intros Hroot. unfold route. set (p := resolve root path_info).
   destruct (is_prefix root p) eqn:Hp; cbn [negb]; [|constructor].
   destruct (is_prefix_inv root p Hp) as (q & Eq). rewrite Eq in *. clearbody p. clear Hp p Eq.
-  destruct (chars_eqb (last (root ++ q) []) catalog_xml) eqn:Hc.
-  - (* catalog.xml : the listed directory is the parent, still inside *)
-    assert (Hq : q <> []) by (intros ->; rewrite app_nil_r in Hc; congruence).
-    rewrite removelast_app by assumption.
-    destruct (isdir fs (root ++ removelast q)); cbn [snd].
+  destruct (chars_eqb (last (root ++ q) []) catalog_xml && is_prefix root (removelast (root ++ q))) eqn:Hc.
+  - (* catalog.xml : the listed directory is the parent, and the parent is inside *)
+    apply andb_prop in Hc as [_ Hin].
+    destruct (is_prefix_inv root _ Hin) as (q2 & ->).
+    destruct (isdir fs (root ++ q2)); cbn [snd].
     + constructor; [apply is_prefix_app|apply index_inside].
     + constructor; [apply is_prefix_app|constructor].
   - destruct (exists_ fs (root ++ q)) eqn:He.
@@ -88,7 +88,7 @@ Theorem refusal_discloses_nothing exts fs root path_info :
 Proof.
   unfold route. set (p := resolve root path_info).
   destruct (negb (is_prefix root p)); cbn [fst snd]; [constructor|].
-  destruct (chars_eqb (last p []) catalog_xml).
+  destruct (chars_eqb (last p []) catalog_xml && is_prefix root (removelast p)).
   - destruct (isdir fs (removelast p)); cbn [fst snd]; [exact I|repeat constructor].
   - destruct (exists_ fs p).
     + destruct (isdir fs p); cbn [fst snd]; exact I.
@@ -107,7 +107,7 @@ Theorem routing_table exts fs root path_info :
      fst (route exts fs root path_info) =
        if isfile fs base then (if supported exts base then Dap base ext else Unsupported base) else NotFound).
 Proof.
-  intros p Hp Hc. unfold route. fold p. rewrite Hp, Hc. cbn [negb].
+  intros p Hp Hc. unfold route. fold p. rewrite Hp, Hc. cbn [negb andb].
   unfold isfile, isdir, exists_. repeat split; intros H.
   - destruct (lookup_fs fs p) as [[]|]; try discriminate; reflexivity.
   - destruct (lookup_fs fs p) as [[]|]; try discriminate; reflexivity.
